@@ -90,6 +90,16 @@ def edits(schema, doc, rng=None, max_per_rule=None):
             f = schema.field(ptype, it[2])
             # E1 unknown field
             emit("E1", "unknown-field@%s/%s" % (where, it[2]), edited(container, i, lambda c, k: c[k].__setitem__(2, "zz_no_such_field")), meta)
+            # E1 unknown field whose response key repeats that of an earlier leaf of the same selection set (`id name id: nope`):
+            # still a field the parent type does not have
+            prev = [x for x in container[:i] if x[0] == "field" and x[4] is None]
+            if prev and it[4] is None:
+                key = prev[0][1] or prev[0][2]
+
+                def rekey(c, k, key=key):
+                    c[k][1] = key
+                    c[k][2] = "zz_no_such_field"
+                emit("E1", "unknown-field-under-repeated-key@%s/%s" % (where, it[2]), edited(container, i, rekey), dict(meta, form="repeated-key"))
             if f is None:
                 continue
             b = base(f["type"])
@@ -129,6 +139,12 @@ def edits(schema, doc, rng=None, max_per_rule=None):
         elif it[0] == "inline":
             # E5 type condition naming no schema type
             emit("E5", "unknown-condition@%s" % where, edited(container, i, lambda c, k: c[k].__setitem__(1, "ZzNoSuchType")), dict(meta, form="inline"))
+            # ... and selecting only what every composite type offers, so that nothing but the condition itself is wrong
+
+            def unknown_bare(c, k):
+                c[k][1] = "ZzNoSuchType"
+                c[k][2] = [["typename"]]
+            emit("E5", "unknown-condition-typename-only@%s" % where, edited(container, i, unknown_bare), dict(meta, form="inline-bare"))
             # E6 impossible type conditions
             for cand in schema.order:
                 if schema.is_composite(cand) and cand != it[1] and not schema.can_apply(cand, ptype):
